@@ -121,8 +121,8 @@ pub fn expr(e: &mut J, line: u64) -> String {
     let k = e["k"].as_str().unwrap().to_owned();
     match k.as_str() {
         "int" => {
-            let v = e["v"].as_i64().unwrap();
-            if v < 0 { format!("({})", v) } else { format!("{}", v) }
+            // always parenthesised: `3.upper()` and `3 .real` are not what `(3).upper()` is
+            format!("({})", e["v"].as_i64().unwrap())
         }
         "str" => quote(&cp_to_string(&e["s"])),
         "none" => "None".to_owned(),
